@@ -48,6 +48,9 @@ def seeded_table():
         sn = "not re-run" if not suite else (", ".join(suite["new_failures"]) or "none")
         ran = m.get("checks_run", {})
         caught = m.get("caught_by", [])
+        hist = m.get("history", [])
+        if hist and not hist[0]["caught_by"] and caught:
+            first = "(missed at first, see 9.1) " + first
         rows.append(f"| {d.name} | {m.get('property', d.name.split('-')[0])} | {first} | {m.get('demo_on_clean_tree_exit')} / "
                     f"{m.get('demo_with_patch_exit')} | {sn} | {', '.join(ran)} → **{', '.join(caught) or 'MISSED'}** |")
     return "\n".join(rows)
